@@ -145,7 +145,11 @@ def run_case(case):
     config, history = case["config"], case["history"]
     # the known finding (coarsening versions 1 and 2 started with lmin >= 2) is keyed narrowly; everything else has this flag False
     key = {"versions_1_2_with_lmin_ge_2": bool(config["version"] in (1, 2) and config["lmin"] >= 2)}
-    r = es.build(config, history, _f, 1)
+    resume = None
+    if config.get("resume") and len(history) >= 2:
+        # the same history, but the run is stopped in the middle and continued (both documented ways)
+        resume = (len(history) // 2, config["resume"])
+    r = es.build(config, history, _f, 1, resume=resume)
     sa, op = r.sa, r.op
     fails = tiling_failures(sa, key)
     f2, npts = assignment_failures(sa, key)
@@ -166,11 +170,13 @@ def run_case(case):
 def configs(tier):
     out = []
 
-    def add(d, lmax, version, nref, D, s, automatic=False, single=False, towards=None, lmin=1):
+    def add(d, lmax, version, nref, D, s, automatic=False, single=False, towards=None, lmin=1, resume=None):
         c = {"d": d, "lmin": lmin, "lmax": lmax, "version": version, "nref": nref, "automatic": automatic,
              "single_dim": single, "s": s, "special": d < 3 or tier != "quick"}
         if towards:
             c["towards"] = towards
+        if resume:
+            c["resume"] = resume
         out.append((c, D))
     T2 = [[0.3, 0.3], [0.8, 0.8]]
     T3 = [[0.3, 0.3, 0.3], [0.8, 0.8, 0.8]]
@@ -189,6 +195,11 @@ def configs(tier):
             add(2, 2, version, 1, 5, 1, towards=T2)
             add(2, 2, version, 2, 5, 1, towards=T2)
         add(3, 2, 2, 1, 3, 1, towards=T3)
+        # interrupted and continued runs (continue_adaptive_refinement / performSpatiallyAdaptiv(refinement_container=...))
+        for how in ("continue", "container"):
+            add(2, 2, 0, 1, 5, 1, towards=T2, resume=how)
+            add(2, 2, 2, 1, 4, 1, towards=T2, resume=how)
+            add(2, 2, 0, 1, 2, 1, resume=how)
         # start levels lmin >= 2
         for version in (0, 1, 2):
             add(2, 3, version, 1, 2, 1, lmin=2)
@@ -229,7 +240,7 @@ def main(ctx):
     for config, D in configs(ctx.tier):
         tag = "d%d_l%d%d_v%d_nref%d_auto%d_single%d_D%d_s%d%s" % (config["d"], config["lmin"], config["lmax"], config["version"], config["nref"],
                                                                 config["automatic"], config["single_dim"], D, config["s"],
-                                                                "_towards" if config.get("towards") else "")
+                                                                ("_towards" if config.get("towards") else "") + ("_resume_" + config["resume"] if config.get("resume") else ""))
         ctx.bounds[tag] = core.bfs(ctx, config, D, tag=tag)
     return ctx.finish(
         rule="state = sorted leaf areas (start,end,coarsening,splits so far) + lmax reached by a history of decisions: which leaf "
